@@ -189,7 +189,7 @@ __CPROVER_ensures(self->WorkerIndices.size == __CPROVER_old(self->WorkerIndices.
                   self->WorkerIndices.gpresent == __CPROVER_old(self->WorkerIndices.gpresent) && self->WorkerIndices.gval == __CPROVER_old(self->WorkerIndices.gval))
 //@end
 
-//@harness h_order_worker enforce=MPIMaster_order_worker props=C16 min_obl=891 reach=3 timeout=120
+//@harness h_order_worker enforce=MPIMaster_order_worker props=C16 min_obl=900 reach=3 timeout=120
 void h_order_worker(void)
 {
   struct MPIMaster *m; int worker, job;
@@ -252,7 +252,7 @@ __CPROVER_loop_invariant(MPI_n_outstanding >= 0 && MPI_n_outstanding <= (long)se
 __CPROVER_decreases(self->WorkerStack.size)
 //@end
 
-//@harness h_order enforce=MPIMaster_order props=C16 min_obl=1751 reach=3 timeout=300
+//@harness h_order enforce=MPIMaster_order props=C16 min_obl=1770 reach=3 timeout=300
 void h_order(void)
 {
   struct MPIMaster *m;
@@ -367,7 +367,7 @@ __CPROVER_loop_invariant(g_wp < 0 || ((long)i <= g_wp
 __CPROVER_decreases(self->Nprocs - i)
 //@end
 
-//@harness h_check_workers enforce=MPIMaster_check_workers props=C16 min_obl=1675 reach=4 timeout=300
+//@harness h_check_workers enforce=MPIMaster_check_workers props=C16 min_obl=1690 reach=4 timeout=300
 void h_check_workers(void)
 {
   struct MPIMaster *m;
@@ -467,9 +467,9 @@ __CPROVER_ensures((self->Comm.g_dest == self->boss && self->Comm.g_tag == Pendin
 void h_worker_is_finished(void) { struct MPIWorker *w; MPIWorker_is_finished(w); REACH("exit"); }
 //@harness h_worker_is_working enforce=MPIWorker_is_working props=C16 min_obl=33 reach=1 timeout=60
 void h_worker_is_working(void) { struct MPIWorker *w; MPIWorker_is_working(w); REACH("exit"); }
-//@harness h_receive_order enforce=MPIWorker_receive_order props=C16 min_obl=316 reach=3 timeout=60
+//@harness h_receive_order enforce=MPIWorker_receive_order props=C16 min_obl=318 reach=3 timeout=60
 void h_receive_order(void) { struct MPIWorker *w; MPIWorker_receive_order(w); REACH("exit"); }
-//@harness h_report_job_done enforce=MPIWorker_report_job_done props=C16 min_obl=259 reach=2 timeout=60
+//@harness h_report_job_done enforce=MPIWorker_report_job_done props=C16 min_obl=262 reach=2 timeout=60
 void h_report_job_done(void) { struct MPIWorker *w; MPIWorker_report_job_done(w); REACH("exit"); }
 
 /* ---------------------------------------------------------------- 5c. MPIWorker::MPIWorker(comm, boss)
